@@ -42,7 +42,8 @@ class HttpImpl:
     def setup_lines(self):
         import os
         lines = ["hnew", "hdir " + enc("/user"), "hprincipal " + enc("/user"),
-                 "hdir " + enc("/user/calendars"), "hdir " + enc("/user/contacts"),
+                 # the home sets are repositories themselves (PrincipalBare.create → create_collection)
+                 "hcoll %s other" % enc("/user/calendars"), "hcoll %s other" % enc("/user/contacts"),
                  "hcoll %s calendar" % enc(CAL), "hcoll %s addressbook" % enc(BOOK),
                  "hcoll %s inbox" % enc("/user/inbox")]
         for cp in (CAL, BOOK, "/user/inbox"):
@@ -157,6 +158,9 @@ class HttpImpl:
         p0 = self.prefix.rstrip("/")
         q = urllib.parse.quote
         kind = sel[0]
+        if kind == "echo":       # a member in whose path the text of the mount point occurs again
+            path = {"/dav": CAL + "/david.ics", "/a/b": "/user/calendars/a/b.ics"}.get(p0, CAL + "/a.ics")
+            return p0 + q(path), p0 + path, ("get", p0 + q(path))
         if kind == "member":
             return p0 + q(sel[1]), p0 + sel[1], ("get", p0 + q(sel[1]))
         if kind == "variant":   # every second character escaped, lower-case hex digits
@@ -167,6 +171,8 @@ class HttpImpl:
                 else:
                     out.append(q(ch))
             return p0 + "".join(out), p0 + sel[1], ("get", p0 + q(sel[1]))
+        if kind == "rawdelims":  # RFC 3986 sub-delims and ':' '@' left unescaped, as a client may send them
+            return p0 + urllib.parse.quote(sel[1], safe="/!$&'()*+,;=:@"), p0 + sel[1], ("get", p0 + q(sel[1]))
         if kind == "abs":
             return "http://localhost" + sel[2] + p0 + q(sel[1]), p0 + sel[1], ("get", p0 + q(sel[1]))
         if kind == "otherhost":
